@@ -139,6 +139,13 @@ func (f *FuncCtx) coerce(v Val, t types.Type) Val {
 			return f.box(v, t)
 		}
 	}
+	// assignable values of identical underlying type (an unnamed []byte bound to a parameter of a named slice type):
+	// the value takes the declared type, so that its methods resolve
+	if v.S == "" && !types.Identical(v.Typ, t) && types.Identical(v.Typ.Underlying(), t.Underlying()) {
+		if _, isNamed := types.Unalias(t).(*types.Named); isNamed && f.S.SortOf(v.Typ) == f.S.SortOf(t) {
+			v.Typ = t
+		}
+	}
 	return v
 }
 
